@@ -171,13 +171,39 @@ def _single_region(body, F=None, is_single_param=2):
     return None, None
 
 
+def hrc_parts(F):
+    """((body, entry block) of the single-message handling, (body, entry block) of the batch handling). Both live in
+    handle_rpc_call, on the two arms of the switch on its single/batch flag - or in a helper of server.rs that is called on
+    that arm only (then the helper's whole body is the region)."""
+    hb = F.one(HRC)
+    s, bt = _single_region(hb)
+    if s is None or bt is None:
+        raise AnchorLost("switch on is_single in handle_rpc_call")
+
+    def part(entry, other, marker):
+        if any(c.bb in (hb.reach_from(entry) | {entry}) for c in hb.calls if re.search(marker, (c.name() or "")) or re.search(marker, c.callee or "")):
+            return hb, entry
+        for c in hb.calls:
+            nm = c.name() or ""
+            if not nm.startswith("jsonrpsee_server::server::") or re.search(r"\{closure#\d+\}$", nm):
+                continue
+            tgt = F.bodies.get(nm + "::{closure#0}") or F.bodies.get(nm)
+            if tgt is None or tgt is hb:
+                continue
+            if any(re.search(marker, (x.name() or "")) or re.search(marker, x.callee or "") for x in tgt.calls):
+                if not hb.dominates(entry, c.bb) or hb.dominates(other, c.bb):
+                    raise AnchorLost("%s is not called on its own arm of the single/batch switch only" % nm)
+                return tgt, 0
+        raise AnchorLost("the code handling this arm of handle_rpc_call (marker %s)" % marker)
+
+    return part(s, bt, r"deserialize_with_ext::call::from_slice$"), part(bt, s, r"RpcServiceT::batch$")
+
+
 def r2_classify_once(ctx):
     F, R = ctx.F, ctx.R
-    b = F.one(HRC)
+    (b, single), (bb_, batch_e) = hrc_parts(F)
     R.fn(b)
-    single, batch = _single_region(b)
-    if single is None:
-        raise AnchorLost("switch on is_single in handle_rpc_call")
+    batch = batch_e if bb_ is b else None
     region = b.reach_from(single) | {single}
     sites = [(c, k) for c, k in classification_sites(F, b) if c.bb in region and enclosing_loop_next(b, c.bb) is None and (batch is None or not b.dominates(batch, c.bb))]
     order = [k for c, k in sorted(sites, key=lambda x: len(b.dom[x[0].bb]))]
@@ -484,7 +510,8 @@ def r6_transport_agreement(ctx):
         if b.crate != SERVER or is_test_body(b):
             continue
         k = fkey(b)
-        okk = k.startswith("jsonrpsee_server::server::handle_rpc_call") or k.startswith("jsonrpsee_server::middleware::rpc::RpcService::batch")
+        (sb_, _), (bb2_, _) = hrc_parts(F)
+        okk = k.startswith("jsonrpsee_server::server::handle_rpc_call") or k in (fkey(sb_), fkey(bb2_)) or k.startswith("jsonrpsee_server::middleware::rpc::RpcService::batch")
         R.check(okk, "C01.R6", "service-driver:%s" % k, "RpcServiceT is driven from handle_rpc_call / RpcService::batch", "RpcServiceT::%s is called from %s, bypassing handle_rpc_call's classification" % (c.callee.split("::")[-1], k), where(c))
     tr = ctx.tracer(follow_callers=False, follow_fields=False)
     tasks = [b for b in F.find(WSTASK) if b.calls_to(r"server::handle_rpc_call$")]
